@@ -608,10 +608,14 @@ def _worker(args):
 # known findings
 # --------------------------------------------------------------------------
 def load_findings():
+    out = []
     p = os.path.join(ROOT, "known_findings.json")
-    if not os.path.exists(p):
-        return []
-    return json.load(open(p))["findings"]
+    if os.path.exists(p):
+        out += json.load(open(p))["findings"]
+    import glob
+    for q in sorted(glob.glob(os.path.join(ROOT, "findings", "*.json"))):   # per-property staging files
+        out += json.load(open(q))["findings"]
+    return out
 
 
 def source_hashes(functions):
